@@ -215,7 +215,7 @@ def _case(spec, ctx):
         with ctx.formak("export_python", spec):
             f = ad.export_python()
             hand = by_hand(f, m, X)
-        if not np.allclose(t1, hand, rtol=1e-12, atol=1e-15):
+        if not np.allclose(t1, hand, rtol=1e-9, atol=1e-12):  # the global tolerance rule; an equivalent formula (solve instead of inv) differs by eps*cond(S)
             ctx.fail("transform:vs-exported-filter-by-hand", f"transform {t1.tolist()} by hand {hand.tolist()}", spec)
         ref, stop = reference_fold(m, spec["X"])
         # the fold's sensitivity to rounding grows with every row (measured: x100 per row on some generated filters),
@@ -282,7 +282,7 @@ def _case(spec, ctx):
             with ctx.formak("transform:second-data", spec):
                 t4 = np.asarray(ad.transform(X2), float)
                 hand4 = by_hand(ad.export_python(), m, X2)
-            if not np.allclose(t4, hand4, rtol=1e-12, atol=1e-15):
+            if not np.allclose(t4, hand4, rtol=1e-9, atol=1e-12):
                 ctx.fail("transform:state-carried-over-between-calls", f"second data matrix: transform {t4.tolist()} by hand {hand4.tolist()}", spec)
             if m["sensors"]:
                 try:
@@ -303,7 +303,7 @@ def _case(spec, ctx):
                 ad.set_params(innovation_filtering=k1)
                 t3 = np.asarray(ad.transform(X), float)
                 hand3 = by_hand(ad.export_python(), m, X)
-            if not np.allclose(t3, hand3, rtol=1e-12, atol=1e-15):
+            if not np.allclose(t3, hand3, rtol=1e-9, atol=1e-12):
                 ctx.fail("transform:stale-after-set_params", f"after set_params(innovation_filtering={k1!r}) (was {k0!r}): transform {t3.tolist()} "
                                                              f"exported filter by hand {hand3.tolist()}", spec)
             if not np.array_equal(t3, t1):
